@@ -46,6 +46,10 @@ def _paths(cfg, atom_eval):
                 and isinstance(n.ast.targets[0], ast.Name):
             env = dict(env)
             env[n.ast.targets[0].id] = poly(n.ast.value, env)
+        if n.kind == "stmt" and isinstance(n.ast, ast.AugAssign) and isinstance(n.ast.target, ast.Name):
+            # x op= v  is  x = x op v
+            env = dict(env)
+            env[n.ast.target.id] = poly(ast.BinOp(left=ast.Name(id=n.ast.target.id, ctx=ast.Load()), op=n.ast.op, right=n.ast.value), env)
         if n.kind == "cond":
             v = atom_eval(n.exprs[0])
             if v is not None:
@@ -323,7 +327,9 @@ def run(ctx, rep):
     # package runs)
     d = {utext(n.ast.targets[0]): n.ast.value for n in cfgcl.live_nodes() if n.kind == "stmt" and isinstance(n.ast, ast.Assign)}
     o_ok = "orders" in d and utext(d["orders"]) == "self.blotter.client_orders(%s, matched_only=True)" % cl.params[1]
-    p_ok = "profit" in d and utext(d["profit"]) == "round(sum([order.profit for order in orders]), 2)"
+    p_ok = "profit" in d and utext(d["profit"]) in ("round(sum([order.profit for order in orders]), 2)",
+                                                       "round(sum((order.profit for order in orders)), 2)",
+                                                       "round(sum(order.profit for order in orders), 2)")
     rep.check(o_ok, "R2", key(cl, None, "the summary ranges over that client's matched orders"), cl, d.get("orders"))
     rep.check(p_ok, "R2", key(cl, None, "summary profit = sum of the orders' profits"), cl, d.get("profit"))
     ret = [r for r in walk_nodes(cl.node.body, ast.Return) if isinstance(r.value, ast.Dict)]
